@@ -81,7 +81,10 @@ Fixpoint p_trim_left_rev (s : bytes) : bytes :=
          end
   end.
 
-Definition p_trim_right (s : bytes) : bytes := rev (p_trim_left_rev (rev s)).
+(* linear-time list reversal (equal to rev, see ParserProofs.p_rev_eq) *)
+Definition p_rev (l : bytes) : bytes := rev_append l [].
+
+Definition p_trim_right (s : bytes) : bytes := p_rev (p_trim_left_rev (p_rev s)).
 Definition p_trim_space (s : bytes) : bytes := p_trim_right (p_trim_left s).
 
 (* strings.TrimLeft(s, '' ''), strings.Trim(s, '' ''), strings.Trim(s, ''\'''') *)
@@ -557,9 +560,6 @@ Definition parse_secaction (data : bytes) : option rule_desc :=
 (* ------------------------------------------------------------------------------------ *)
 (* line assembly: parseString / evaluateLine / Include                                  *)
 (* ------------------------------------------------------------------------------------ *)
-(* linear-time list reversal (equal to rev, see ParserProofs.p_rev_eq) *)
-Definition p_rev (l : bytes) : bytes := rev_append l [].
-
 Definition p_drop_cr (l : bytes) : bytes :=
   match p_rev l with c :: r => if c =? cCR then p_rev r else l | [] => l end.
 
